@@ -106,7 +106,8 @@ class _PageParser(HTMLParser):
         a = dict(attrs)
         if tag not in VOID:
             self.stack.append(tag)
-        self.skeleton.append(tag)
+        if self.src_level is None:
+            self.skeleton.append(tag)
         if tag == "svg":
             self.svg += 1
         if tag in ("script", "style"):
@@ -137,9 +138,10 @@ class _PageParser(HTMLParser):
             while self.stack and self.stack[-1] != tag:
                 self.stack.pop()
             self.stack.pop()
-        self.skeleton.append("/" + tag)
         if self.src_level is not None and len(self.stack) < self.src_level:
             self.src_level = None
+        if self.src_level is None:
+            self.skeleton.append("/" + tag)
 
     def handle_data(self, data):
         if self.skip:
